@@ -16,7 +16,7 @@ not yet released with their deadlines.
 from streams.cluster import T0, hx
 
 HEADER = 3
-REQUIRED_SHAPES = ["acquired", "acquired_after_timeout", "contended", "stale_token", "forged_token", "unlock_ok", "lease_ok",
+REQUIRED_SHAPES = ["filler_puts", "acquired", "acquired_after_timeout", "contended", "stale_token", "forged_token", "unlock_ok", "lease_ok",
                    "lease_extends", "expired_at_boundary", "unlock_straddles_expiry", "lease_straddles_expiry", "wait_acquires", "race",
                    "via_non_owner", "no_timeout_survives"]
 
@@ -113,6 +113,9 @@ class Oracle:
             return None
         if name == "c.lock":
             return self.on_lock(a[3], reply, int(a[4]), self.ms(), int(a[1]), "Lock via %s/m%s" % (a[0], a[1]))
+        if name == "c.put":
+            self.hit("filler_puts")
+            return None if reply == "ok" else "Put of an ordinary entry next to the locks: %s" % reply
         if name == "c.lockw":
             # one attempt now; the key being held, the attempts after the clock moved by adv
             v = self.valid(a[3])
@@ -212,9 +215,18 @@ class Gen:
             was = dict(toks[k]).get(t, "raw")
             return t, ("raw" if was == "raw" else r.choice(["emb", "cli"]))
 
+        fill = 0
         for _ in range(nops or 60):
             k = r.choice(keys)
             x = r.random()
+            if r.random() < 0.07:
+                # ordinary entries of the same DMap, more than a table of them: the lock entries end up in tables behind
+                # the one being written (a held lock must be seen there too)
+                for _i in range(r.choice([8, 16])):
+                    fill += 1
+                    if fill <= 40:
+                        yield "c.own dm %s" % hx(b"fill%d" % (fill % 40))      # the model is told every key's owners
+                    yield "c.put emb %d dm %s %s" % (r.randrange(n), hx(b"fill%d" % (fill % 40)), hx(b"f" * r.choice([500, 700])))
             if x < 0.30:
                 p, m = entry()
                 if r.random() < 0.3:
